@@ -600,6 +600,12 @@ func (e *SpecEnv) call(n *SCall) Val {
 			return Sc{app("box!s", "4", e.eval(n.Args[0]).(Sc).T), SDyn}
 		}
 		return Sc{app("box!b", "5", e.rawArr(e.eval(n.Args[0])).(Sc).T, e.evalInt(n.Args[1])), SDyn}
+	case "deref":
+		// deref(p): the value a (value-mode) pointer points to
+		if pt, ok := e.eval(n.Args[0]).(Pt); ok {
+			return pt.Elem
+		}
+		e.fail("deref of a non-pointer")
 	case "substr":
 		// substr(s, lo, hi) = s[lo:hi]
 		e.c().usesStr = true
@@ -726,4 +732,36 @@ func (e *SpecEnv) itemsOf(n *SCall) Val {
 	}
 	ysig := seqT.Params().At(0).Type().Underlying().(*types.Signature)
 	return e.x.traceOf(e.c().eng.qualName(fn), ysig, args, nil, "Zs")
+}
+
+// groundInstances: for a clause of the shape [A ==>] (forall k int :: body) [&& ...], the conjunction of body[k := 0..n-1]
+// (a proof-search aid at call sites where the quantified parameter is a literal-length argument list: the instances
+// are consequences of the clause, which has been assumed as a whole already).
+func (e *SpecEnv) groundInstances(x SExpr, n int) string {
+	switch q := x.(type) {
+	case *SBin:
+		switch q.Op {
+		case "==>":
+			return tImp(e.evalBool(q.X), e.groundInstances(q.Y, n))
+		case "&&":
+			return tAnd(e.groundInstances(q.X, n), e.groundInstances(q.Y, n))
+		}
+	case *SQuant:
+		if q.Forall && len(q.Vars) == 1 && specSort(q.Vars[0][1]) == SInt {
+			saved := e.bound
+			var out []string
+			for k := 0; k < n; k++ {
+				nb := map[string]Sc{}
+				for kk, v := range saved {
+					nb[kk] = v
+				}
+				nb[q.Vars[0][0]] = Sc{tInt(int64(k)), SInt}
+				e.bound = nb
+				out = append(out, e.evalBool(q.Body))
+			}
+			e.bound = saved
+			return tAnd(out...)
+		}
+	}
+	return tTrue
 }
